@@ -25,7 +25,7 @@ def main(argv=None):
         path = argv[1]
         rec = json.load(open(path))
         mod = importlib.import_module("vf.props." + rec["property"].lower())
-        res = mod.PROP.replay(rec["case"])
+        res = mod.PROP.replay(dict(rec["case"], **(rec.get("extra") or {})))
         print("property:", rec["property"], " symptom:", rec.get("symptom"))
         print("case:    ", core.canon(rec["case"]))
         print("expected:", res.get("expected"))
